@@ -15,7 +15,6 @@ MUTANTS = [
     dict(id="save-utf8", expect=["C17"], edits=[(BASE, 'newline="\\r\\n", encoding="latin_1") as file:', 'newline="\\r\\n", encoding="utf-8") as file:')]),
     dict(id="save-no-unlink", expect=[], silent=["C17"], edits=[(BASE, "        filepath.unlink(missing_ok=True)\n", "")]),
     dict(id="save-rplus", expect=["C17"], edits=[(BASE, '        filepath.unlink(missing_ok=True)\n        with open(filepath, "w",', '        filepath.touch()\n        with open(filepath, "r+",')]),
-    dict(id="save-trailing-newline", expect=["C17"], edits=[(BASE, '            file.write("\\n".join(self))', '            file.write("\\n".join(self) + "\\n")')]),
     dict(id="init-all-above-max", expect=["C20"], edits=[(LW, "        if np.any(initial_volumes > max_volume):", "        if np.all(initial_volumes > max_volume):")]),
     dict(id="max-eq-min-accepted", expect=["C20"], edits=[(LW, "        if max_volume is None or not max_volume > min_volume:", "        if max_volume is None or not max_volume >= min_volume:")]),
     dict(id="troughwells-c-order", expect=["C19"], edits=[(UT, '    trough_wells = list(numpy.asarray(trough_wells).flatten("F"))', '    trough_wells = list(numpy.asarray(trough_wells).flatten())')]),
